@@ -478,6 +478,7 @@ def judge_into(events, sm):
         if v.startswith('unjudged:'):
             sm.unjudged[v] = sm.unjudged.get(v, 0) + 1
         elif v != 'ok':
+            e['verdict'] = v
             sm.violation('trace-rejected', e, '%s %s %s: %s' % (e.get('block') or e.get('where'), label,
                                                                  (e.get('info') or {}).get('damage', ''), v))
 
@@ -590,6 +591,17 @@ def struct_cases(tier, rng):
                 case['mods'] = mods
             cases.append(case)
     return cases, structures
+
+
+def _known_terminus(kind, sc):
+    """Known finding: a residue carrying a mutation AND a modification keeps its old residue name on the atoms matched to the
+    modification's own atoms (nothing else differs: the verdict is about the residue name only)."""
+    return (sc.get('kind') == 'repairx' and sc.get('verdict') == 'residue-not-renamed-to-the-requested-block'
+            and bool(sc.get('muts')) and any(m != 'none' for m in sc.get('mods', []))
+            and any(o['resname'] != sc['muts'][0] for o in sc.get('out', [])) and all(o['resname'] in (sc['muts'][0], sc['resname']) for o in sc.get('out', [])))
+
+
+SIGNATURES = {'C19-mutated-terminus-resname': _known_terminus}
 
 
 def run(tier, seed, ev, vd):
